@@ -895,8 +895,13 @@ class IndexLevelGO(IndexLevel):
         for depth, k in enumerate(key):
             edge_nodes[depth] = node
             # only set on first encounter in descent
-            if depth_not_found == -1 and not node.index.__contains__(k):
-                depth_not_found = depth
+            if depth_not_found == -1:
+                if not node.index.__contains__(k):
+                    depth_not_found = depth
+                elif (node.targets is not None
+                        and node.index._loc_to_iloc(k) != node.index.__len__() - 1):
+                    # the descent follows the last edge: a key under an earlier label cannot be appended
+                    raise RuntimeError(f'cannot append {key}: label {k} is not the last label at depth {depth}')
             if node.targets is not None:
                 node = node.targets[-1]
 
